@@ -85,7 +85,8 @@ def havoc_slice(ip, st, sl):
 def require(ip, frame, bb, st, kind, op, l, r, detail):
     """obligation  l op r ; afterwards assume it (execution continues only if it holds)"""
     ok = st.prove_cmp(op, l, r)
-    ip.oblige(kind, frame, bb, ok, "%s: need %s %s %s" % (detail, st.describe(l), op, st.describe(r)), st, label=detail)
+    ip.oblige(kind, frame, bb, ok, "%s: need %s %s %s" % (detail, st.describe(l), op, st.describe(r)), st, label=detail,
+              goal=(("cmp", op, l, r), True))
     try:
         st.assume_cmp(op, l, r)
     except Infeasible:
@@ -214,6 +215,17 @@ def s_unwrap(ip, frame, bb, st, callee, args, dty):
 
 
 # ====================================================================== Option / Result combinators
+
+def s_ok_or(ip, frame, bb, st, callee, args, dty):
+    # Option::ok_or(self, err): Some(v) -> Ok(v), None -> Err(err)
+    out = []
+    for s2, var, pay in split_enum(ip, st, args[0], "ok_or"):
+        if var == 1:
+            out.append((s2, mk(RES, 0, pay[0])))
+        else:
+            out.append((s2, mk(RES, 1, args[1])))
+    return out
+
 
 def s_is_variant(variant):
     def f(ip, frame, bb, st, callee, args, dty):
@@ -782,6 +794,7 @@ def install(ip):
     E["std::option::Option::<T>::is_none"] = s_is_variant(0)
     E["std::result::Result::<T, E>::is_err"] = s_is_variant(1)
     E["std::result::Result::<T, E>::is_ok"] = s_is_variant(0)
+    E["std::option::Option::<T>::ok_or"] = s_ok_or
     E["std::option::Option::<T>::map"] = s_map(OPT, 1)
     E["std::result::Result::<T, E>::map"] = s_map(RES, 0)
     E["std::result::Result::<T, E>::map_err"] = s_map(RES, 1)
